@@ -2,6 +2,7 @@ package main
 
 import (
 	"fmt"
+	"go/token"
 	"go/types"
 	"strconv"
 	"strings"
@@ -129,6 +130,14 @@ func (E *Engine) call(fr *Frame, st *State, cc *ssa.CallCommon, instr ssa.Instru
 	case *ssa.MakeClosure:
 		c := E.value(fr, v).(*Closure)
 		return E.callFn(fr, st, c.fn, args, c.bind, instr)
+	}
+	if u, ok := cc.Value.(*ssa.UnOp); ok && u.Op == token.MUL {
+		if g, ok := u.X.(*ssa.Global); ok {
+			if fn := E.P.funcVar(g); fn != nil {
+				E.note("package-level function variable " + g.Name() + " is assigned only at initialisation: a call through it is a call of that function")
+				return E.callFn(fr, st, fn, args, nil, instr)
+			}
+		}
 	}
 	x := E.value(fr, cc.Value)
 	switch c := x.(type) {
@@ -396,6 +405,9 @@ func (E *Engine) havocAll(st *State) {
 		}
 	}
 	E.addFact(st, E.tb.Cmp("<=", al, E.clock(st)))
+	if c, ok := old.heap["time$clock"]; ok {
+		E.addFact(st, E.tb.Cmp("<=", c, E.get(st, "time$clock", SInt)))
+	}
 	E.preserveUnescaped(st, old, nil)
 }
 
